@@ -51,6 +51,9 @@ func runProperty(prog *Prog, prop *Property, tier string, known *KnownFile) (res
 		func() {
 			defer func() {
 				if e := recover(); e != nil {
+					if os.Getenv("IC_PANIC") != "" {
+						panic(e)
+					}
 					c.undecided(r.ID, "-", "analyser panic", 0, fmt.Sprintf("%v\n%s", e, debug.Stack()))
 				}
 			}()
